@@ -38,8 +38,8 @@ def menu(mod, smp, level):
             ops.append(['rmul', {'X': 'Xu2', 'Y': 'Yg2', 'Z': 'Zg1'}[free[-1]]])
     # sum with a sample on the same spaces
     ops.append(['addself'])
-    ops.append(['add', 'b2'])
     if full:
+        ops.append(['add', 'b2'])
         ops.append(['radd', 'g1'])
         ops.append(['add', 'u2'])
         ops.append(['radd', 'g2'])
@@ -52,10 +52,10 @@ def menu(mod, smp, level):
                     ops.append(['take', list(sel)])
         else:
             sels = [[n - 1]]
-            if n >= 2:
-                sels.append([1, 0])
             if n >= 3:
                 sels.append([n - 1, 0, 1])
+            elif n == 2:
+                sels.append([1, 0])
             for sel in sels:
                 ops.append(['take', sel])
     # subset: masks over the result indices
@@ -106,7 +106,7 @@ class Failure(Exception):
         self.kind, self.what, self.sig = kind, what, sig
 
 
-def step(smp, mod, op, seen=None):
+def step(smp, mod, op, seen=None, integral=True):
     '''apply op and run the oracle.  returns (sample, model, note).  Raises Failure.
     note is a string when the implementation chose one of the permitted alternatives, and
     'seen' when the resulting sample object was verified before against an equal model
@@ -124,9 +124,10 @@ def step(smp, mod, op, seen=None):
     if seen is not None and seen.get(smp2) == mod2.key():
         obs = M.conform(smp2, mod2, deep=False)
         if obs:
-            raise Failure(obs[0], obs[1], M.typesig(smp2))
+            raise Failure(obs[0], obs[1], M.typesig(smp2, 1))
         return smp2, mod2, 'seen'
-    obs = M.conform(smp2, mod2, deep=DEEP)
+    memo = {}
+    obs = M.conform(smp2, mod2, deep=DEEP, integral=integral, memo=memo)
     note = None
     if obs and op[0] == 'take' and obs[0] in ('eval', 'integrate', 'getindex') and list(op[1]) != sorted(op[1]):
         # the property does not fix the element order of a non-monotone take_elements: accept any
@@ -135,12 +136,12 @@ def step(smp, mod, op, seen=None):
             if list(alt) == list(op[1]):
                 continue
             mod3 = mod.take(list(alt))
-            if M.conform(smp2, mod3) is None:
+            if M.conform(smp2, mod3, deep=DEEP, integral=integral, memo=memo) is None:
                 mod2, obs = mod3, None
                 note = 'take_elements({}) of {} returned the elements in the order {}'.format(op[1], M.typesig(smp, 1), list(alt))
                 break
     if obs:
-        raise Failure(obs[0], obs[1], M.typesig(smp2))
+        raise Failure(obs[0], obs[1], M.typesig(smp2, 1))
     return smp2, mod2, note
 
 
@@ -171,10 +172,11 @@ def explore(bname, smp, mod, ops_so_far, levels, res, seen, first=None):
         ops = ops_so_far + [op]
         res.count('transitions')
         try:
-            smp2, mod2, note = step(smp, mod, op, seen)
+            smp2, mod2, note = step(smp, mod, op, seen, integral=len(ops) <= 2)
         except Failure as f:
             res.count('evaluations')
-            res.violation('{}:{}'.format(f.kind, f.sig), '{}: {}'.format(M.describe(bname, ops), f.what), {'part': 'a', 'base': bname, 'ops': ops})
+            key = f.kind if f.kind.startswith(('unsupported:', 'raise:')) else '{}:{}'.format(f.kind, f.sig)
+            res.violation(key, '{}: {}'.format(M.describe(bname, ops), f.what), {'part': 'a', 'base': bname, 'ops': ops})
             continue
         res.count('traces_validated_against_impl')
         if note == 'seen':
